@@ -1619,7 +1619,7 @@ def search(r):
     run_searches(r, "mazes", [maze_case(r.rng) for _ in range(2500 if quick else 12000)])
     run_searches(r, "dtypes", [dtype_case(r.rng) for _ in range(3000 if quick else 12000)])
     if not r.failures:
-        run_histories(r, 1500 if quick else 8000, stop_after=3)
+        run_histories(r, 800 if quick else 8000, stop_after=3)
     if not r.failures:
         # nothing small fails: look for a route that is only slightly too long (needs near-tie alternatives, i.e.
         # long rasters); stops as soon as three failing inputs are known
